@@ -432,8 +432,8 @@ func TestC27(t *testing.T) {
 	}
 
 	// ---- generated multisets ----
-	nCases := e.Pick(260, 4000)
-	fullBudget5, fullBudget6 := e.Pick(6, 60), e.Pick(2, 20)
+	nCases := e.Pick(260, 2400)
+	fullBudget5, fullBudget6 := e.Pick(6, 40), e.Pick(2, 12)
 	for c := 0; c < nCases; c++ {
 		n := 2 + rng.Intn(7) // 2..8
 		if rng.Intn(12) == 0 {
